@@ -9,6 +9,13 @@
    and a pop may return ANY waiting entry of the eligible pool with the smallest client count
    (which one container/heap returns among equals is not part of the property).
 
+   The bridge list (broker/bridge-list.go) can be replaced at any moment (L_Install = LoadBridgeInfo swapping the
+   map under its own lock); a client's fingerprint is checked against the list current at its request
+   (ClientOffers), the relay URL is looked up in the list current when the proxy handler replies (ProxyPolls,
+   after RequestOffer returned); a client naming no fingerprint names the default bridge
+   (messages.DecodeClientPollRequest). Ghost fields (never read by a step's guard or a response) record which
+   list a client was checked against.
+
    Version V0 = the pinned code; V1 = the repaired protocol (see DESIGN.md C04):
      - the waiter's timeout branch, when the entry was already claimed by a client, goes on to
        receive that client's offer and forwards it (V0: returns and leaves both blocked);
@@ -36,10 +43,21 @@ Definition answer := N.
 Definition fpr := N.
 Definition url := N.
 
+(* messages.defaultBridgeFingerprint and the WebSocket address of the built-in bridge line of NewBrokerContext
+   (opaque tags, like every other string) *)
+Definition default_fp : fpr := 0.
+Definition default_url : url := 0.
+Definition builtin_bridges : list (fpr * url) := [(default_fp, default_url)].
+(* DecodeClientPollRequest: if message.Fingerprint == "" { message.Fingerprint = defaultBridgeFingerprint } *)
+Definition fp_of (ofp : option fpr) : fpr := match ofp with Some f => f | None => default_fp end.
+
 (* what a matched proxy poll returns: the client's offer, the client's NAT type, the relay URL *)
 Record match_info := { m_offer : offer; m_nat : natty; m_url : url }.
+(* what travels over the offer channels: ClientOffer{natType, sdp, fingerprint} *)
+Record fwd_info := { f_offer : offer; f_nat : natty; f_fp : fpr }.
 
-Inductive presp := PNoMatch | PMatch (m : match_info).
+(* PError: GetBridgeInfo failed when the proxy handler built its reply (HTTP 500) *)
+Inductive presp := PNoMatch | PMatch (m : match_info) | PError.
 Inductive cresp := CAnswer (a : answer) | CNoProxies | CTimedOut | CBadFingerprint.
 
 (* waiter goroutine + proxy-poll handler of one registered poll *)
@@ -48,7 +66,7 @@ Inductive wpc :=
 | W_TimedOut          (* waiter took the timer case, waits for the lock *)
 | W_Late              (* V1: entry was already claimed; waiter receives the client's offer next *)
 | W_Stuck             (* V0: waiter returned without forwarding; handler blocked forever *)
-| W_Forward (m : match_info)  (* waiter holds the offer, forwards it to the handler next *)
+| W_Forward (f : fwd_info)   (* waiter holds the offer, forwards it to the handler next *)
 | W_Done (r : presp). (* handler returned r *)
 
 Inductive cpc :=
@@ -57,7 +75,9 @@ Inductive cpc :=
 | C_Cleanup (r : cresp) (* response chosen; final critical section pending *)
 | C_Done (r : cresp).
 
-Record clrec := { c_id : nat; c_nat : natty; c_fp : fpr; c_offer : offer; c_pc : cpc; c_fired : bool }.
+Record clrec := { c_id : nat; c_nat : natty; c_fp : fpr; c_offer : offer; c_pc : cpc; c_fired : bool;
+                   c_url : url;     (* ghost: what GetBridgeInfo returned (and ClientOffers discarded) at its request *)
+                   c_epoch : nat    (* ghost: number of bridge lists installed up to its request *) }.
 
 Record entry := {
   e_sid : sid; e_nat : natty; e_ptype : N; e_clients : N;
@@ -75,6 +95,7 @@ Record state := {
   idmap : list (sid * nat);        (* idToSnowflake: sid -> entry index; at most one binding per sid *)
   gauge : Z;                       (* sum of the AvailableProxies gauge *)
   bridges : list (fpr * url);
+  br_hist : list (list (fpr * url)); (* ghost: every list installed so far, newest first *)
   next_cid : nat;
   next_aid : nat;
   done_clients : list (nat * natty * fpr * offer * cresp);  (* clients that never got an entry *)
@@ -83,7 +104,7 @@ Record state := {
 }.
 
 Definition init (br : list (fpr * url)) : state :=
-  {| entries := []; idmap := []; gauge := 0%Z; bridges := br; next_cid := 0; next_aid := 0;
+  {| entries := []; idmap := []; gauge := 0%Z; bridges := br; br_hist := [br]; next_cid := 0; next_aid := 0;
      done_clients := []; done_answers := []; answer_log := [] |}.
 
 (* ---------- small helpers ---------- *)
@@ -137,12 +158,14 @@ Definition add_posted (a : answer) (e : entry) : entry :=
      e_buf := e_buf e; e_senders := e_senders e; e_posted := a :: e_posted e |}.
 
 Definition set_cpc (pc : cpc) (c : clrec) : clrec :=
-  {| c_id := c_id c; c_nat := c_nat c; c_fp := c_fp c; c_offer := c_offer c; c_pc := pc; c_fired := c_fired c |}.
+  {| c_id := c_id c; c_nat := c_nat c; c_fp := c_fp c; c_offer := c_offer c; c_pc := pc; c_fired := c_fired c;
+     c_url := c_url c; c_epoch := c_epoch c |}.
 Definition set_cfired (c : clrec) : clrec :=
-  {| c_id := c_id c; c_nat := c_nat c; c_fp := c_fp c; c_offer := c_offer c; c_pc := c_pc c; c_fired := true |}.
+  {| c_id := c_id c; c_nat := c_nat c; c_fp := c_fp c; c_offer := c_offer c; c_pc := c_pc c; c_fired := true;
+     c_url := c_url c; c_epoch := c_epoch c |}.
 
 Definition with_entries (es : list entry) (s : state) : state :=
-  {| entries := es; idmap := idmap s; gauge := gauge s; bridges := bridges s; next_cid := next_cid s;
+  {| entries := es; idmap := idmap s; gauge := gauge s; bridges := bridges s; br_hist := br_hist s; next_cid := next_cid s;
      next_aid := next_aid s; done_clients := done_clients s; done_answers := done_answers s;
      answer_log := answer_log s |}.
 
@@ -163,8 +186,9 @@ Inductive label :=
 | L_FireW (p : nat)                          (* the waiter's 10 s timer fires *)
 | L_WTake (p : nat)                          (* the waiter's select commits to the timer case *)
 | L_WTimeoutCS (p : nat)                     (* the waiter's critical section *)
-| L_Client (n : natty) (fp : fpr) (o : offer) (choice : option nat)
-                                             (* client poll decoded; bridge looked up; matchSnowflake *)
+| L_Client (n : natty) (ofp : option fpr) (o : offer) (choice : option nat)
+                                             (* client poll decoded (fingerprint field possibly empty); bridge
+                                                looked up; matchSnowflake *)
 | L_RvOffer (p : nat)                        (* client sends its offer, waiter receives *)
 | L_RvForward (p : nat)                      (* waiter forwards, handler receives and returns *)
 | L_FireC (p : nat)                          (* the client's 10 s timer fires *)
@@ -173,7 +197,8 @@ Inductive label :=
 | L_Answer (s : sid) (a : answer)            (* answer request decoded and looked up under the lock *)
 | L_RvAnswer (p : nat)                       (* V0: first blocked sender hands its answer to the waiting client *)
 | L_AnswerPut (p : nat)                      (* V1: first sender does its non-blocking send *)
-| L_CTakeAnswer (p : nat).                   (* V1: the client's select receives the buffered answer *)
+| L_CTakeAnswer (p : nat)                    (* V1: the client's select receives the buffered answer *)
+| L_Install (br : list (fpr * url)).         (* LoadBridgeInfo replaces the bridge list *)
 
 Definition new_entry (s : sid) (n : natty) (pt cl : N) : entry :=
   {| e_sid := s; e_nat := n; e_ptype := pt; e_clients := cl; e_w := W_Select; e_wfired := false;
@@ -184,7 +209,7 @@ Definition step (v : version) (s : state) (l : label) : option state :=
   | L_Poll sd n pt cl =>
       Some {| entries := entries s ++ [new_entry sd n pt cl];
               idmap := set_key sd (length (entries s)) (idmap s);
-              gauge := (gauge s + 1)%Z; bridges := bridges s; next_cid := next_cid s; next_aid := next_aid s;
+              gauge := (gauge s + 1)%Z; bridges := bridges s; br_hist := br_hist s; next_cid := next_cid s; next_aid := next_aid s;
               done_clients := done_clients s; done_answers := done_answers s; answer_log := answer_log s |}
   | L_FireW p =>
       match nth_error (entries s) p with
@@ -210,7 +235,7 @@ Definition step (v : version) (s : state) (l : label) : option state :=
               if e_inheap e then
                 Some {| entries := upd p (fun e => set_w (W_Done PNoMatch) (set_heap_live false false e)) (entries s);
                         idmap := remove_key (e_sid e) (idmap s);
-                        gauge := (gauge s - 1)%Z; bridges := bridges s; next_cid := next_cid s; next_aid := next_aid s;
+                        gauge := (gauge s - 1)%Z; bridges := bridges s; br_hist := br_hist s; next_cid := next_cid s; next_aid := next_aid s;
                         done_clients := done_clients s; done_answers := done_answers s; answer_log := answer_log s |}
               else
                 Some (with_entries (upd p (set_w (match v with V0 => W_Stuck | V1 => W_Late end)) (entries s)) s)
@@ -218,25 +243,27 @@ Definition step (v : version) (s : state) (l : label) : option state :=
           end
       | None => None
       end
-  | L_Client n fp o choice =>
+  | L_Client n ofp o choice =>
+      let fp := fp_of ofp in
       let cid := next_cid s in
       let fin (r : cresp) :=
-        Some {| entries := entries s; idmap := idmap s; gauge := gauge s; bridges := bridges s;
+        Some {| entries := entries s; idmap := idmap s; gauge := gauge s; bridges := bridges s; br_hist := br_hist s;
                 next_cid := S cid; next_aid := next_aid s;
                 done_clients := (cid, n, fp, o, r) :: done_clients s; done_answers := done_answers s;
                 answer_log := answer_log s |} in
       match lookup fp (bridges s) with
       | None => match choice with None => fin CBadFingerprint | Some _ => None end
-      | Some _ =>
+      | Some u0 =>
           match choice with
           | None => if pool_empty n (entries s) then fin CNoProxies else None
           | Some p =>
               match nth_error (entries s) p with
               | Some e =>
                   if eligible n e && is_min n (entries s) e then
-                    let c := {| c_id := cid; c_nat := n; c_fp := fp; c_offer := o; c_pc := C_Send; c_fired := false |} in
+                    let c := {| c_id := cid; c_nat := n; c_fp := fp; c_offer := o; c_pc := C_Send; c_fired := false;
+                                c_url := u0; c_epoch := length (br_hist s) |} in
                     Some {| entries := upd p (fun e => set_cl (Some c) (set_heap_live false (e_live e) e)) (entries s);
-                            idmap := idmap s; gauge := gauge s; bridges := bridges s;
+                            idmap := idmap s; gauge := gauge s; bridges := bridges s; br_hist := br_hist s;
                             next_cid := S cid; next_aid := next_aid s;
                             done_clients := done_clients s; done_answers := done_answers s;
                             answer_log := answer_log s |}
@@ -250,11 +277,11 @@ Definition step (v : version) (s : state) (l : label) : option state :=
       | Some e =>
           match e_cl e with
           | Some c =>
-              match c_pc c, (match e_w e with W_Select | W_Late => true | _ => false end), lookup (c_fp c) (bridges s) with
-              | C_Send, true, Some u =>
-                  let m := {| m_offer := c_offer c; m_nat := c_nat c; m_url := u |} in
-                  Some (with_entries (upd p (fun e => set_w (W_Forward m) (set_cl (Some (set_cpc C_Wait c)) e)) (entries s)) s)
-              | _, _, _ => None
+              match c_pc c, (match e_w e with W_Select | W_Late => true | _ => false end) with
+              | C_Send, true =>
+                  let f := {| f_offer := c_offer c; f_nat := c_nat c; f_fp := c_fp c |} in
+                  Some (with_entries (upd p (fun e => set_w (W_Forward f) (set_cl (Some (set_cpc C_Wait c)) e)) (entries s)) s)
+              | _, _ => None
               end
           | None => None
           end
@@ -263,7 +290,13 @@ Definition step (v : version) (s : state) (l : label) : option state :=
   | L_RvForward p =>
       match nth_error (entries s) p with
       | Some e => match e_w e with
-                  | W_Forward m => Some (with_entries (upd p (set_w (W_Done (PMatch m))) (entries s)) s)
+                  | W_Forward f =>
+                      (* the handler receives the offer, then: GetBridgeInfo(offer.fingerprint) *)
+                      let r := match lookup (f_fp f) (bridges s) with
+                               | Some u => PMatch {| m_offer := f_offer f; m_nat := f_nat f; m_url := u |}
+                               | None => PError
+                               end in
+                      Some (with_entries (upd p (set_w (W_Done r)) (entries s)) s)
                   | _ => None
                   end
       | None => None
@@ -297,7 +330,7 @@ Definition step (v : version) (s : state) (l : label) : option state :=
                               | C_Cleanup r =>
                                   Some {| entries := upd p (fun e => set_cl (Some (set_cpc (C_Done r) c)) (set_heap_live (e_inheap e) false e)) (entries s);
                                           idmap := remove_key (e_sid e) (idmap s);
-                                          gauge := (gauge s - 1)%Z; bridges := bridges s; next_cid := next_cid s;
+                                          gauge := (gauge s - 1)%Z; bridges := bridges s; br_hist := br_hist s; next_cid := next_cid s;
                                           next_aid := next_aid s; done_clients := done_clients s;
                                           done_answers := done_answers s; answer_log := answer_log s |}
                               | _ => None
@@ -310,13 +343,13 @@ Definition step (v : version) (s : state) (l : label) : option state :=
       let aid := next_aid s in
       match lookup sd (idmap s) with
       | None =>
-          Some {| entries := entries s; idmap := idmap s; gauge := gauge s; bridges := bridges s;
+          Some {| entries := entries s; idmap := idmap s; gauge := gauge s; bridges := bridges s; br_hist := br_hist s;
                   next_cid := next_cid s; next_aid := S aid; done_clients := done_clients s;
                   done_answers := (aid, sd, a, false) :: done_answers s;
                   answer_log := (aid, sd, a) :: answer_log s |}
       | Some p =>
           Some {| entries := upd p (fun e => add_posted a (set_senders (e_senders e ++ [(aid, a)]) e)) (entries s);
-                  idmap := idmap s; gauge := gauge s; bridges := bridges s;
+                  idmap := idmap s; gauge := gauge s; bridges := bridges s; br_hist := br_hist s;
                   next_cid := next_cid s; next_aid := S aid; done_clients := done_clients s;
                   done_answers := done_answers s; answer_log := (aid, sd, a) :: answer_log s |}
       end
@@ -328,7 +361,7 @@ Definition step (v : version) (s : state) (l : label) : option state :=
               match c_pc c with
               | C_Wait =>
                   Some {| entries := upd p (fun e => set_senders rest (set_cl (Some (set_cpc (C_Cleanup (CAnswer a)) c)) e)) (entries s);
-                          idmap := idmap s; gauge := gauge s; bridges := bridges s; next_cid := next_cid s;
+                          idmap := idmap s; gauge := gauge s; bridges := bridges s; br_hist := br_hist s; next_cid := next_cid s;
                           next_aid := next_aid s; done_clients := done_clients s;
                           done_answers := (aid, e_sid e, a, true) :: done_answers s; answer_log := answer_log s |}
               | _ => None
@@ -344,7 +377,7 @@ Definition step (v : version) (s : state) (l : label) : option state :=
           | (aid, a) :: rest =>
               let ok := match e_buf e with None => true | Some _ => false end in
               Some {| entries := upd p (fun e => set_senders rest (if ok then set_buf (Some a) e else e)) (entries s);
-                      idmap := idmap s; gauge := gauge s; bridges := bridges s; next_cid := next_cid s;
+                      idmap := idmap s; gauge := gauge s; bridges := bridges s; br_hist := br_hist s; next_cid := next_cid s;
                       next_aid := next_aid s; done_clients := done_clients s;
                       done_answers := (aid, e_sid e, a, ok) :: done_answers s; answer_log := answer_log s |}
           | [] => None
@@ -364,6 +397,10 @@ Definition step (v : version) (s : state) (l : label) : option state :=
           end
       | _, _ => None
       end
+  | L_Install br =>
+      Some {| entries := entries s; idmap := idmap s; gauge := gauge s; bridges := br; br_hist := br :: br_hist s;
+              next_cid := next_cid s; next_aid := next_aid s; done_clients := done_clients s;
+              done_answers := done_answers s; answer_log := answer_log s |}
   end.
 
 Fixpoint run (v : version) (s : state) (ls : list label) : option state :=
